@@ -124,33 +124,34 @@ let () =
                          fix_leak = b 4; fix_negseek = b 5; fix_phase_sign = b 6 } in
                let bUF = z_of_int (int_of_string buf) in
                let dec = dec_bz2 bUF (eager = "1") in
-               let d = { d_cfg = c; d_raws = List.map parse_raw (split ';' (String.trim raws));
+               let d = ref { d_cfg = c; d_raws = List.map parse_raw (split ';' (String.trim raws));
                          d_fields = List.map parse_field (split ';' (String.trim fields)) } in
-               let cs = List.map parse_call (split ';' (String.trim calls)) in
-               let st = ref (init d) and dead = ref false in
-               let outs = List.map (fun c ->
-                 if !dead then "X" else begin
-                   let (s', r) = step dec d !st c in
+               let st = ref (init !d) and dead = ref false in
+               let outs = List.map (fun cs ->
+                 if !dead then "X"
+                 else match String.split_on_char ',' cs with
+                 | ["w"; r; k; hex] ->
+                     (* gd_putdata on a RAW field of the raw encoding: coq/C02/Writes.v put_raw *)
+                     let bs = bytes_of_hex hex in
+                     let rn = nat_of_int (int_of_string r) in
+                     let size = int_of_z (List.nth !d.d_raws (int_of_string r)).rd_size in
+                     (match put_raw !d !st rn (z_of_string k) bs with
+                      | Some (d', s') -> d := d'; st := s'; "W " ^ string_of_int (List.length bs / size)
+                      | None -> "E -8")
+                 | _ ->
+                   let c = parse_call cs in
+                   let (s', r) = step dec !d !st c in
                    st := s';
                    match r with
                    | RData l ->
                        let spec = match c with
-                         | CGet (f, Some k, n) -> " # " ^ show_list (spec_window d f k n)
+                         | CGet (f, Some k, n) -> " # " ^ show_list (spec_window !d f k n)
                          | _ -> "" in
                        "D " ^ show_list l ^ spec
                    | RPos p -> "P " ^ string_of_z p
-                   | RErr e ->
-                       let spec = match c with
-                         | CGet (f, Some k, n) -> " # " ^ show_list (spec_window d f k n)
-                         | _ -> "" in
-                       "E " ^ string_of_z e ^ spec
+                   | RErr e -> "E " ^ string_of_z e
                    | RDone -> "K"
-                   | RUB ->
-                       dead := true;
-                       (match c with
-                        | CGet (f, Some k, n) -> "UB # " ^ show_list (spec_window d f k n)
-                        | _ -> "UB")
-                 end) cs in
+                   | RUB -> dead := true; "UB") (split ';' (String.trim calls)) in
                print_endline (String.concat ";" outs)
            | _ -> print_endline "BADHEAD")
       | _ -> print_endline "BADLINE"
